@@ -24,7 +24,7 @@ RULE = (
     "for every G program: every ArrayExpr node of the raw, simplified, lowered and fused expression (and Array.transfer_bytes) must give a "
     "2-tuple of numbers with 0 <= min <= max, NaN only when a chunk size of the node or its inputs is unknown; Rechunk to identical chunks, "
     "ChunksOverride, RootAlias, ChunksFreeze, Concatenate must give (0, 0). moved_fraction: " + EXHAUSTIVE + " and random pairs up to n=200: "
-    "result in [0,1], 0 for identical layouts and pure splits. distinct = (node class, phase) x program signature; non-trivial = node with "
+    "result in [0,1], 0 for identical layouts and pure splits; directed nodes: Rechunk(x, x.chunks) with single-block axes, takes/shuffles repeating rows of a small block. distinct = (node class, phase) x program signature; non-trivial = node with "
     ">= 2 blocks and >= 1 array dependency"
 )
 ASSUMPTIONS = ["reading transfer_bytes never computes (property read only)"]
@@ -146,6 +146,7 @@ def run_all(ctx):
         ctx.evaluations += 1
     for v in K.flush_to(ctx):
         ctx.violation(v["mech"].split(":")[0], v["msg"], case={"fn": v["fn"], "call": v["call"]}, mech=v["mech"])
+    directed(ctx)
     # expression walks
     nprog = 0
     big = ctx.tier == "thorough"
@@ -171,6 +172,87 @@ def run_all(ctx):
             ctx.violation(kind, f"{msg}\n  program: {case['steps']}", case=case, mech=mech)
     for v in K.flush_to(ctx):
         ctx.violation(v["mech"].split(":")[0], v["msg"], case={"fn": v["fn"], "call": v["call"]}, mech=v["mech"])
+
+
+def directed_case(case, ctx):
+    """Hand-aimed nodes the random programs rarely build: a Rechunk whose target equals its input's layout (single-block
+    axes included), and shuffles/takes whose index lists repeat rows of a small block many times."""
+    import dask_array as da
+    from dask_array._rechunk import Rechunk
+
+    kind = case["directed"]
+    chunks = tuple(tuple(c) for c in case["chunks"])
+    shape = tuple(sum(c) for c in chunks)
+    x = da.from_array(np.arange(int(np.prod(shape)), dtype=case.get("dtype", "f8")).reshape(shape), chunks=chunks)
+    xs = []
+    if kind == "identity_rechunk":
+        xs.append(("Rechunk(x, x.chunks)", da.Array(Rechunk(x.expr, x.chunks)) if hasattr(da, "Array") else None))
+        xs.append(("x.rechunk(x.chunks, balance=True)", x.rechunk(x.chunks, balance=True)))
+        xs.append(("(x+1).rechunk(x.chunks, balance=True)", (x + 1).rechunk(x.chunks, balance=True)))
+    elif kind == "repeated_take":
+        ax = case["axis"]
+        idx = list(case["index"])
+        xs.append((f"take({idx}, axis={ax})", da.take(x, idx, axis=ax)))
+        sl = [slice(None)] * len(shape)
+        sl[ax] = idx
+        xs.append((f"x[{idx}] on axis {ax}", x[tuple(sl)]))
+    elif kind == "shuffle_groups":
+        ax = case["axis"]
+        xs.append((f"shuffle({case['groups']}, axis={ax})", x.shuffle([list(gp) for gp in case["groups"]], axis=ax)))
+    out = []
+    for label, y in xs:
+        if y is None:
+            continue
+        ctx.count(f"directed:{kind}")
+        for kind_, msg, mech in check_expr(y, ctx, f"directed:{kind}"):
+            out.append((kind_, f"{label} over chunks {chunks}: {msg}", mech))
+    return out
+
+
+def directed(ctx):
+    r = random.Random(f"{ctx.seed}:{ctx.index}:directed")
+    n = 60 if ctx.tier == "quick" else 1500
+    for _ in range(n):
+        nd = r.randint(1, 3)
+        chunks = []
+        for _a in range(nd):
+            t = r.random()
+            ext = r.randint(1, 12)
+            if t < 0.35:
+                chunks.append((ext,))
+            else:
+                c = list(_rc(r, ext))
+                if r.random() < 0.4 and ext > 2:
+                    c = [ext - 2, 2] if r.random() < 0.5 else [ext - 1, 1]
+                chunks.append(tuple(c))
+        kind = r.choice(["identity_rechunk", "repeated_take", "shuffle_groups"])
+        case = {"directed": kind, "chunks": [list(c) for c in chunks]}
+        if kind != "identity_rechunk":
+            ax = r.randrange(nd)
+            ext = sum(chunks[ax])
+            last = chunks[ax][-1]
+            pool = list(range(ext - last, ext)) if r.random() < 0.6 else list(range(ext))
+            case["axis"] = ax
+            if kind == "repeated_take":
+                k = r.randint(2, 12)
+                base = [r.choice(pool) for _ in range(r.randint(1, 2))]
+                case["index"] = [r.choice(base) for _ in range(k)]
+            else:
+                groups = []
+                for _g in range(r.randint(1, 3)):
+                    base = [r.choice(pool) for _ in range(r.randint(1, 2))]
+                    groups.append([r.choice(base) for _ in range(r.randint(1, 9))])
+                case["groups"] = groups
+        ctx.current_case = case
+        try:
+            probs = directed_case(case, ctx)
+        except Exception as e:
+            ctx.count("directed_build_raised")
+            ctx.tab("directed_build_raised", f"{type(e).__name__}:{exc_site(e)}")
+            continue
+        ctx.evaluations += 1
+        for kind_, msg, mech in probs[:2]:
+            ctx.violation(kind_, msg, case=case, mech=mech)
 
 
 def _rc(r, n):
@@ -200,6 +282,10 @@ def replay_case(case, ctx):
         E.moved_fraction(tuple(case["call"][0]), tuple(case["call"][1]))
         for v in K.flush_to(ctx):
             ctx.violation(v["mech"].split(":")[0], v["msg"], case=case, mech=v["mech"])
+        return
+    if "directed" in case:
+        for kind, msg, mech in directed_case(case, ctx)[:3]:
+            ctx.violation(kind, msg, case=case, mech=mech)
         return
     try:
         g = Prog.replay(case["steps"])
